@@ -129,7 +129,8 @@ BurnupIgnoresVolume ==
     \A o \in Opts :
         LET cs == CandOf(o)
         IN (o.rep # "Median" /\ Len(cs) > 0) =>
-            \A i \in Idx(cs) : Burnup([cs EXCEPT ![i].h = @ * 2], o.rep) = Burnup(cs, o.rep)
+            \A i \in Idx(cs) : /\ Burnup([cs EXCEPT ![i].h = @ * 2], o.rep) = Burnup(cs, o.rep)
+                               /\ Burnup([cs EXCEPT ![i].sym = 3], o.rep) = Burnup(cs, o.rep)
 \* "with the median option it is a copy of an actual member holding the median weighted burnup"
 MedianIsEligibleMember ==
     \A o \in Opts :
@@ -154,6 +155,11 @@ CylinderSourceIsMiddle ==
 \* the order in which a block stores its components is irrelevant
 StorageOrderIrrelevant ==
     \A o \in Opts : Values(RepOf([i \in Idx(members) |-> [members[i] EXCEPT !.ord = <<>>]], o)) = Values(RepOf(members, o))
+\* the temperatures a collection reports without making a block are those of its representative
+TemperaturesAgree ==
+    \A o \in Opts :
+        LET R == RepOf(members, o)
+        IN (R.out = "ok" /\ R.ntemp # <<>>) => NucTempsOf(members, o) = R.ntemp
 \* refusals and "no candidate" are decided by the candidates alone
 OutcomeRule ==
     \A o \in Opts :
